@@ -73,14 +73,12 @@ func InitTCC() {
 }
 
 func GetTCCResourceManagerInstance() *TCCResourceManager {
-	if tCCResourceManager == nil {
-		onceTCCResourceManager.Do(func() {
-			tCCResourceManager = &TCCResourceManager{
-				resourceManagerMap: sync.Map{},
-				rmRemoting:         rm.GetRMRemotingInstance(),
-			}
-		})
-	}
+	onceTCCResourceManager.Do(func() {
+		tCCResourceManager = &TCCResourceManager{
+			resourceManagerMap: sync.Map{},
+			rmRemoting:         rm.GetRMRemotingInstance(),
+		}
+	})
 	return tCCResourceManager
 }
 
